@@ -1,2 +1,48 @@
-(* C09 — stream discipline. (theorems added by Proofs/ReaderProps.v) *)
-From VF Require Import Model.Writer Gen.GeneratedOk.
+(* C09 — stream discipline: position independence. *)
+From VF Require Import Model.Reader Model.Writer Proofs.ReaderProps Proofs.ShiftProps Gen.GeneratedOk.
+Open Scope string_scope. Open Scope list_scope. Open Scope Z_scope.
+
+(* For every type (structures, unions, all four array forms, bit fields, pointers; aligned structures when the start offset is a multiple of
+   their power-of-two alignments — `shift_ok pre c t`), every configuration, input, context, fuel and start position:
+   parsing at position p = |pre| + pos of pre ++ s returns exactly what parsing s at pos returns — the same value or the same error —
+   with the end position moved by |pre|.  The value never depends on the bytes before p, and the stream is left at p plus the encoded size. *)
+Theorem position_independent : forall pre c fuel t, shift_ok pre c t = true ->
+  forall s pos ctx, 0 <= pos ->
+    read_ty c fuel t (pre ++ s) (zlen pre + pos) ctx = shift (zlen pre) (read_ty c fuel t s pos ctx).
+Proof. intros pre c fuel t H s pos ctx Hp. exact (proj1 (read_ty_shift pre c fuel t H s pos ctx Hp)). Qed.
+(* two streams that agree from p on *)
+Theorem bytes_before_p_irrelevant : forall c fuel t pre1 pre2 s pos ctx, zlen pre1 = zlen pre2 ->
+  shift_ok pre1 c t = true -> shift_ok pre2 c t = true -> 0 <= pos ->
+  read_ty c fuel t (pre1 ++ s) (zlen pre1 + pos) ctx = read_ty c fuel t (pre2 ++ s) (zlen pre2 + pos) ctx.
+Proof. exact prefix_irrelevant. Qed.
+(* at the public entry point (fuel chosen from the stream length) *)
+Theorem entry_point_position_independent : forall c t pre s pos r, simple t = true -> shift_ok pre c t = true -> 0 <= pos ->
+  read_top c t s pos = Ok r -> read_top c t (pre ++ s) (zlen pre + pos) = shift (zlen pre) (Ok r).
+Proof. exact read_top_shift. Qed.
+(* bytes after the parsed extent never matter (C08's extension stability, restated for C09) *)
+Theorem bytes_after_irrelevant : forall c fuel t, simple t = true ->
+  forall s1 s2 pos ctx r, read_ty c fuel t s1 pos ctx = Ok r -> read_ty c fuel t (s1 ++ s2) pos ctx = Ok r.
+Proof. exact read_ty_ext. Qed.
+
+Print Assumptions position_independent.
+Print Assumptions bytes_before_p_irrelevant.
+Print Assumptions entry_point_position_independent.
+Print Assumptions bytes_after_irrelevant.
+
+(* non-vacuity: an aligned structure with a nested union, a counted array and bit fields satisfies shift_ok for an 8-byte prefix, and parsing at 8 equals parsing alone *)
+Definition ex_cfg := mkCfg "<" (PInt 8 false true) 8 [] [].
+Definition u8 := TPrim (PInt 1 false true) 1.
+Definition u32 := TPrim (PInt 4 false true) 4.
+Definition ex_ty := TStruct "m" [Fld "n" false u8 None None; Fld "w" false u32 None None;
+                                 Fld "u" false (TUnion "u" [Fld "a" false u32 None None; Fld "b" false (TArr u8 (LFixed 4)) None None] true) None None;
+                                 Fld "d" false (TArr (TPrim (PInt 2 false true) 2) (LExpr ["n"] false)) None None;
+                                 Fld "x" false u8 (Some 3) None; Fld "y" false u8 (Some 5) None] true.
+Definition ex_pre := [9; 9; 9; 9; 9; 9; 9; 9].
+Example ex_ok : shift_ok ex_pre ex_cfg ex_ty = true.
+Proof. vm_compute. reflexivity. Qed.
+Example ex_unaligned_prefix_rejected : shift_ok [9; 9; 9] ex_cfg ex_ty = false.
+Proof. vm_compute. reflexivity. Qed.
+Example ex_shift : let s := [2; 0; 0; 0; 1; 2; 3; 4; 5; 6; 7; 8; 1; 0; 2; 0; 171; 0; 0; 0] in
+  (exists v, read_top ex_cfg ex_ty s 0 = Ok (v, 20)) /\
+  rvz_eqb (read_top ex_cfg ex_ty (ex_pre ++ s) 8) (shift 8 (read_top ex_cfg ex_ty s 0)) = true.
+Proof. vm_compute. split; [eexists; reflexivity|reflexivity]. Qed.
